@@ -239,6 +239,8 @@ pub struct World {
     pub group_id: Vec<u8>,
     /// signing key and identity of the external sender named in the group context (C16)
     pub ext_signer: Option<(SignatureSecretKey, SigningIdentity)>,
+    /// leaf private key of each member as of the last epoch change (C09: a replaced key is gone)
+    pub leaf_sk: BTreeMap<usize, Vec<u8>>,
 }
 
 pub fn time(secs: u64) -> MlsTime {
@@ -327,6 +329,7 @@ impl World {
             clock: *CLOCK0,
             group_id: b"verif-group".to_vec(),
             ext_signer,
+            leaf_sk: BTreeMap::new(),
         }
     }
 
